@@ -288,7 +288,11 @@ func (c *Check) AddFamily(name string, cases, nontrivial uint64) {
 
 // Fail records a violating case. Cases that match a listed known finding are only counted
 // (the simplest one is kept), so that an unlisted violation can never be crowded out.
-func (c *Check) Fail(f Failure) {
+// Known reports whether a listed known-finding class covers f, and if so counts the case for
+// that class. A property that caps the failures it hands to Fail (simplest cases per group) must
+// call Known BEFORE applying the cap: otherwise the cases of a listed class fill the group and an
+// unlisted violation of the same group is cut off without ever being reported.
+func (c *Check) Known(f Failure) bool {
 	c.knownOnce.Do(func() {
 		c.known = LoadKnown(c.ID)
 		c.knownHits = map[*KnownFinding]int{}
@@ -302,9 +306,21 @@ func (c *Check) Fail(f Failure) {
 				c.knownFirst[k] = f
 			}
 			c.mu.Unlock()
-			return
+			return true
 		}
 	}
+	return false
+}
+
+func (c *Check) Fail(f Failure) {
+	if c.Known(f) {
+		return
+	}
+	c.FailUnlisted(f)
+}
+
+// FailUnlisted records a failure that Known has already been asked about.
+func (c *Check) FailUnlisted(f Failure) {
 	c.mu.Lock()
 	if len(c.failures) < 200000 {
 		c.failures = append(c.failures, f)
@@ -312,6 +328,13 @@ func (c *Check) Fail(f Failure) {
 		c.dropped++
 	}
 	c.mu.Unlock()
+}
+
+// Failures returns the failures recorded so far that no known-finding class covers.
+func (c *Check) Failures() []Failure {
+	c.mu.Lock()
+	defer c.mu.Unlock()
+	return append([]Failure{}, c.failures...)
 }
 
 // Expired tells enumerators to stop: the internal deadline passed.
